@@ -160,7 +160,7 @@ def handle (j : Json) : R Json := do
   match k with
   | "struct" =>
     let cfg ← structCfg j; let ops ← (← fldArr j "ops").mapM parseSOp
-    return Json.mkObj [("states", jarr ((run cfg (init cfg) ops).map stJson))]
+    return Json.mkObj [("init", stJson (init cfg)), ("states", jarr ((run cfg (init cfg) ops).map stJson))]
   | "judge_struct" =>
     let members ← fldStrs j "members"
     let trace ← (← fldArr j "trace").mapM (fun e => do
@@ -172,26 +172,29 @@ def handle (j : Json) : R Json := do
     let cfg : FCfg := { vdict := ← parseVdict (← fld j "vdict"), lo := ← fldInt j "lo", hi := ← fldInt j "hi",
                         hasR := ← fldBool j "hasR", hasW := ← fldBool j "hasW" }
     let ops ← (← fldArr j "ops").mapM parseFOp
-    let s0 : FSt := { idx := ← fldInt j "idx0", value := ← fldInt j "value0" }
-    return Json.mkObj [("states", jarr ((frun cfg s0 ops).map fstJson))]
+    let s0 := finit cfg (← fldInt j "idx0")
+    return Json.mkObj [("init", fstJson s0), ("states", jarr ((frun cfg s0 ops).map fstJson))]
   | "judge_floatenum" =>
     let vdict ← parseVdict (← fld j "vdict")
     let trace ← (← fldArr j "trace").mapM parseFRec
     return Json.mkObj [("bad", jopt jnat (judgeFloatEnum vdict trace 0))]
   | "limits" =>
     let cfg ← lcfg j; let ops ← (← fldArr j "ops").mapM parseLOp
-    return Json.mkObj [("states", jarr ((lrun cfg (linit cfg (← fldInt j "value0")) ops).map lstJson))]
+    let s0 := linit cfg (← fldInt j "value0")
+    return Json.mkObj [("init", lstJson s0), ("states", jarr ((lrun cfg s0 ops).map lstJson))]
   | "judge_limits" =>
     let trace ← (← fldArr j "trace").mapM parseLRec
     return Json.mkObj [("bad", jopt jnat (judgeLimits trace 0))]
   | "control" =>
     let n ← fldNat j "n"; let ops ← (← fldArr j "ops").mapM parseCOp
-    return Json.mkObj [("states", jarr ((Frappy.Control.run n Frappy.Control.init ops).map (cstJson n)))]
+    return Json.mkObj [("init", cstJson n Frappy.Control.init),
+                       ("states", jarr ((Frappy.Control.run n Frappy.Control.init ops).map (cstJson n)))]
   | "judge_control" =>
     let n ← fldNat j "n"; let ops ← (← fldArr j "ops").mapM parseCOp
     let sts ← (← fldArr j "trace").mapM parseCState
-    if sts.length ≠ ops.length then throw "length mismatch"
-    let recs := mkCRecs n (ops.zip sts) (List.replicate n false) true
+    if sts.length ≠ ops.length + 1 then throw "length mismatch (the trace starts with the initial state)"
+    let (cb0, act0) := sts.head!
+    let recs := { takeover := .no, strong := true, cb := cb0, act := act0 : CRec } :: mkCRecs n (ops.zip sts.tail!) act0 true
     return Json.mkObj [("bad", jopt jnat (judgeControl n recs 0))]
   | _ => throw s!"C18: unknown verb {k}"
 
